@@ -109,4 +109,10 @@ META = {
         "note": "Trusted: Lean kernel; extractor; the harness's mapping of log/slog values to the model's SVal; log/slog and log package behaviour.",
         "technique": "Lean 4 (mutual structural induction, decide on regenerated tables) + differential replay through log/slog and log",
     },
+    "C14": {
+        "text": "Proof: the frame selected by runtime.Callers in a stack model, for all chain lengths, skip counts and stack depths (indexing lemma), combined with the entry-point table regenerated from the source by a symbolic walk (skip constant and library call-chain length of every logContext site): every site passes chain+1 and the logger's skip count, so every entry point attributes to user frame n. Adapter and bridge constants likewise. Tied to the code by the translator and by a sweep over all entry points x formats x logger kinds x skips x repeated call sites, in an inlining and a no-inlining build.",
+        "design_ref": "DESIGN.md §7 C14",
+        "note": "Trusted: Lean kernel; extractor (symbolic walk); Go runtime frame counting; structure of log/slog and log call paths.",
+        "technique": "Lean 4 (list indexing lemma + decide over regenerated entry-point table) + differential stack-frame matching in two builds",
+    },
 }
